@@ -36,7 +36,7 @@ ENTRIES = {
         "design_ref": "DESIGN.md §4",
     },
     "C03": {
-        "text": "Step-level theorems for every state: the marker's owner going away releases every queued waiter (sender dropped = wake-up), a released pure waiter resolves with an error, a released dialer carries on, a checkout whose attempts have terminated never polls Pending. Trace monitors: lost wake-up, stranded waiter (marker gone), resolved dial not consumed, drain + probe phase. Two stranding defects found and fixed.",
+        "text": "Invariant theorem over all reachable states of the pool model: a live checkout that only waits for another request's connection attempt and whose channel is still empty is queued for its origin and the origin's attempt-in-progress marker is set - so whenever the marker goes away (attempt succeeded, failed, cancelled or abandoned at any point of any history) no waiter is left with an empty channel; with a delivered connection its next poll takes it, with a closed channel it gets an error (C03_waiter_only_while_attempt_in_flight, C03_waiter_poll). Step-level theorems for every state: the marker's owner going away releases every queued waiter (sender dropped = wake-up), a released pure waiter resolves with an error, a released dialer carries on, a checkout whose attempts have terminated never polls Pending. Not proved globally: that the marker always has a live owner, and that a live pure waiter's channel is never in the receiver-gone state (checked by the monitors on the runs). Trace monitors: lost wake-up, stranded waiter (marker gone), resolved dial not consumed, drain + probe phase. Two stranding defects found and fixed.",
         "note": 'Trusted: Lean kernel; hand-written pool model tied to the real ConnectionPoolService by per-op differential runs (result, marker set, waiter queues, idle lists, dial and drop counters); tokio oneshot/scheduler semantics assumed; step-level theorems hold for every state, the global ownership invariant is stated in DESIGN.md as future work where not yet proved.',
         "design_ref": "DESIGN.md §4",
     },
